@@ -4,10 +4,13 @@
    Labels: [F] proved for all inputs; [R] refuted for the faithful model of the UNCHANGED tree (finding F12:
    net_model.hpp declares std::vector<int> netWeight_); the [F] theorems are about the repaired tree
    (std::vector<float>), whose addNet stores the weight unchanged.
+   The binary32 (Flocq) part -- "exactly for powers of two" for the assembly -- is the second half of this file
+   (c17_float_*, model coq/QuadFloat.v).
    Not here (validated by runs of checks/c17.py, not proved): what Eigen's single-precision conjugate gradient returns
    for these systems (bitwise equality under factors 2^k, closeness under 2.5 and 7). *)
-From Coq Require Import List ZArith QArith Lia.
-Require Import CV.Quad CV.QuadProofs.
+From Coq Require Import List ZArith QArith Lia Reals Lra.
+From Flocq Require Import Core BinarySingleNaN.
+Require Import CV.Quad CV.QuadProofs CV.QuadFloat CV.QuadFloatProofs.
 Import ListNotations.
 Open Scope Q_scope.
 
@@ -214,6 +217,156 @@ Example ex_repaired_witness :
   sys_scaled 2 (create_star0 (add_net wit_cells wit_offs (2 * (1 # 2)) (nm_empty 1))) (create_star0 (add_net wit_cells wit_offs (1 # 2) (nm_empty 1))).
 Proof. apply c17_assembly_homogeneous. apply add_net_scaled; [split; simpl; auto|reflexivity]. Qed.
 
+(* ================================================================ "exactly for powers of two", in binary32 ===========
+   Model: coq/QuadFloat.v -- the same assembly functions with every C++ `float` operator replaced by the correctly rounded
+   IEEE-754 binary32 operation of Flocq (BinarySingleNaN, prec 24, emax 128, round to nearest even), in the operation
+   order of net_model.cpp; proofs: coq/QuadFloatProofs.v; tie: checks/c17.py (FASM stream: the compiled assembly against
+   this model evaluated by vm_compute, bit for bit).
+   These theorems use Flocq over the real numbers of the standard library; Print Assumptions lists the standard
+   library's axioms that the real numbers and Flocq bring in: ClassicalDedekindReals.sig_forall_dec,
+   ClassicalDedekindReals.sig_not_dec, FunctionalExtensionality.functional_extensionality_dep, Classical_Prop.classic
+   (no other axiom; the 16 theorems above stay closed under the global context).
+
+   sc k x y           : x, y finite, B2R y = 2^k * B2R x, same sign (also of a zero) -- "y is x times 2^k, exactly"
+   fsys_sc k s s'     : same rows/columns/order of the triplets, same initial guess and flags; every triplet value and
+                        right-hand-side entry sc k
+   fs_ok s (boolean computed along the assembly from the inputs): every rounded operation with an operand that depends
+                        on a net weight or penalty strength returned a FINITE value that is an exact zero or of
+                        magnitude > 2^-126 = FLT_MIN (no overflow, no result in the subnormal range, no underflow). *)
+
+(* [F] round-to-nearest-even in binary32 commutes with the multiplication by 2^k when neither the argument nor its
+   multiple is below 2^-126 (any k in Z, any real x) *)
+Theorem c17_float_round_pow2 : forall (k : Z) (x : R),
+  (bpow radix2 (-126) <= Rabs x)%R -> (bpow radix2 (-126) <= Rabs (bpow radix2 k * x))%R ->
+  rnd32 (bpow radix2 k * x) = (bpow radix2 k * rnd32 x)%R.
+Proof. exact rnd32_scale. Qed.
+
+(* [F] hence each operation of the assembly that touches a scaled quantity maps exactly scaled operands to an exactly
+   scaled result when the side condition holds in both runs: a * d, d * a, a / d (d the same in both runs), a + b, -a *)
+Theorem c17_float_ops_pow2_exact : forall k a a' b b' d, sc k a a' -> sc k b b' ->
+  (ok_mul a d (fmul a d) = true -> ok_mul a' d (fmul a' d) = true -> sc k (fmul a d) (fmul a' d)) /\
+  (ok_mul a d (fmul d a) = true -> ok_mul a' d (fmul d a') = true -> sc k (fmul d a) (fmul d a')) /\
+  (ok_div a d (fdiv a d) = true -> ok_div a' d (fdiv a' d) = true -> sc k (fdiv a d) (fdiv a' d)) /\
+  (ok_add (fadd a b) = true -> ok_add (fadd a' b') = true -> sc k (fadd a b) (fadd a' b')) /\
+  sc k (fopp a) (fopp a').
+Proof. exact fops_pow2_exact. Qed.
+
+(* [F] THE CLAUSE, for the assembly: nm' has the nets of nm with every weight multiplied by 2^k exactly (fnm_sc), the
+   penalty strengths likewise; if the side condition holds in the run on nm and in the run on nm', then every triplet
+   and every right-hand-side entry of the system built by createStar(topo), addBipoint/addClique on every net,
+   create(topo, pl, eps, model) for B2B/Star/Clique/LightStar around ANY placement (any floats, also NaN/infinite: they
+   are the same in both runs), and addPenalty after it, is multiplied by 2^k EXACTLY (same pattern, same initial guess).
+   No bound on k, on the number of nets/pins or on the values. *)
+Theorem c17_float_assembly_pow2_exact : forall k nm nm', fnm_sc k nm nm' ->
+  (fs_ok (fcreate_star0 nm) = true -> fs_ok (fcreate_star0 nm') = true -> fsys_sc k (fcreate_star0 nm) (fcreate_star0 nm')) /\
+  (fs_ok (fcreate_bipoint0 nm) = true -> fs_ok (fcreate_bipoint0 nm') = true -> fsys_sc k (fcreate_bipoint0 nm) (fcreate_bipoint0 nm')) /\
+  (fs_ok (fcreate_clique0 nm) = true -> fs_ok (fcreate_clique0 nm') = true -> fsys_sc k (fcreate_clique0 nm) (fcreate_clique0 nm')) /\
+  (forall m pl eps, fs_ok (fcreate m nm pl eps) = true -> fs_ok (fcreate m nm' pl eps) = true ->
+     fsys_sc k (fcreate m nm pl eps) (fcreate m nm' pl eps)) /\
+  (forall m pl eps tg st st' cutoff, Forall2 (sc k) st st' ->
+     fs_ok (fadd_penalty pl tg st cutoff (fcreate m nm pl eps)) = true ->
+     fs_ok (fadd_penalty pl tg st' cutoff (fcreate m nm' pl eps)) = true ->
+     fsys_sc k (fadd_penalty pl tg st cutoff (fcreate m nm pl eps)) (fadd_penalty pl tg st' cutoff (fcreate m nm' pl eps))).
+Proof. exact fassembly_pow2_exact. Qed.
+
+(* [F] how the side condition is discharged: an operation satisfies it when its EXACT result is 0 or of magnitude in
+   [2^-125, 2^127] (finite operands); so fs_ok holds whenever every product weight * offset difference, every quotient
+   weight / distance (or / nb, / (nb-1), / (nb (nb-1))) and every partial sum of a right-hand-side entry is 0 or in that
+   range, in both runs *)
+Theorem c17_float_side_condition_by_range : forall a b d : f32, is_finite a = true -> is_finite b = true -> is_finite d = true ->
+  ((B2R a * B2R d = 0 \/ bpow radix2 (-125) <= Rabs (B2R a * B2R d) <= bpow radix2 127)%R ->
+     ok_mul a d (fmul a d) = true /\ ok_mul a d (fmul d a) = true) /\
+  (B2R d <> 0%R -> (B2R a = 0 \/ bpow radix2 (-125) <= Rabs (B2R a / B2R d) <= bpow radix2 127)%R -> ok_div a d (fdiv a d) = true) /\
+  ((B2R a + B2R b = 0 \/ bpow radix2 (-125) <= Rabs (B2R a + B2R b) <= bpow radix2 127)%R -> ok_add (fadd a b) = true).
+Proof. exact fops_side_condition_by_range. Qed.
+
+(* [F] bit patterns: "exactly 2^k times" means ldexp(., k): the scaled system is the original one with std::ldexp(v, k)
+   applied to every triplet value and right-hand-side entry *)
+Theorem c17_float_scaled_system_is_ldexp :
+  (forall k v v', sc k v v' -> v' = fldexp v k) /\ (forall k s s', fsys_sc k s s' -> fsys_ldexp k s s').
+Proof. exact fscaled_is_ldexp. Qed.
+
+(* [F] finalize(): the two systems handed to the solver are (A + D, b) and (2^k A + D, 2^k b) with the SAME diagonal D of
+   1.0e-8f entries on the rows that no addPin call touched (the regularisation is not scaled) *)
+Theorem c17_float_finalize_regularisation_not_scaled : forall k s s', fsys_sc k s s' ->
+  exists reg, fs_mat (ffinalize s) = fs_mat s ++ reg /\ fs_mat (ffinalize s') = fs_mat s' ++ reg /\
+              reg = freg_trips (fs_nz s) /\
+              Forall2 (sc k) (fs_rhs (ffinalize s)) (fs_rhs (ffinalize s')) /\ fs_init (ffinalize s') = fs_init (ffinalize s).
+Proof. exact ffinalize_sc. Qed.
+
+(* [R] the side condition cannot be dropped: underflow breaks exactness.  One cell, one net {cell 0, fixed pin at 0.375}
+   of weight (2^23+1) 2^-23, k = -126 (the scaled weight (2^23+1) 2^-149 is a binary32 number): the product
+   weight * 0.375 of the scaled run falls below 2^-126 and is rounded at 2^-149 instead of 24 bits.  This is NOT a
+   violation of C17 by /repo for weights of moderate size; it delimits the clause (common factors down to about
+   2^-126 / (smallest weight * smallest distance)) *)
+Theorem c17_float_pow2_exact_refuted_under_underflow :
+  fnm_sc (-126) (uf_nm uf_w) (uf_nm uf_w') /\
+  fs_ok (fcreate_bipoint0 (uf_nm uf_w)) = true /\ fs_ok (fcreate_bipoint0 (uf_nm uf_w')) = false /\
+  ~ fsys_sc (-126) (fcreate_bipoint0 (uf_nm uf_w)) (fcreate_bipoint0 (uf_nm uf_w')).
+Proof. exact fassembly_underflow_witness. Qed.
+
+(* ---------------------------------------------------------------- non-vacuity (binary32): three cells; net A: cells 0, 1, 2
+   at offsets 0.5, 0, -1.25, weight 0.3f; net B: cell 1 at offset 0.1f and a fixed pin at 7.3f, weight 1.7f; placement
+   (1.25, 7.5, -3.1f), epsilon 0.1f; penalty targets (2, 3, 4), strengths (0.3f, 1.7f, 0.1f), cutoff 0.1f; k = 5 *)
+Definition exf_pins1 : list (Z * f32) := [(0%Z, f_of_me 1 (-1)); (1%Z, fzero); (2%Z, f_of_me (-5) (-2))].
+Definition exf_pins2 : list (Z * f32) := [(1%Z, f_of_me 13421773 (-27)); ((-1)%Z, f_of_me 15309210 (-21))].
+Definition exf_nm (k : Z) : fnetmodel :=
+  fbuild_nm 3 [(f_of_me 10066330 (-25 + k), exf_pins1); (f_of_me 14260634 (-23 + k), exf_pins2)].
+Definition exf_pl : list f32 := [f_of_me 5 (-2); f_of_me 15 (-1); f_of_me (-13002342) (-22)].
+Definition exf_eps : f32 := f_of_me 13421773 (-27).
+Definition exf_tg : list f32 := [f_of_Z 2; f_of_Z 3; f_of_Z 4].
+Definition exf_st (k : Z) : list f32 := [f_of_me 10066330 (-25 + k); f_of_me 14260634 (-23 + k); f_of_me 13421773 (-27 + k)].
+
+Example exf_scaled : fnm_sc 5 (exf_nm 0) (exf_nm 5).
+Proof.
+  split; [reflexivity|]. constructor; [|constructor; [|constructor]]; (split; [reflexivity|]).
+  - apply (sc_by_SF 5 _ _ false 10066330 (-25)); vm_compute; reflexivity.
+  - apply (sc_by_SF 5 _ _ false 14260634 (-23)); vm_compute; reflexivity.
+Qed.
+Example exf_strengths_scaled : Forall2 (sc 5) (exf_st 0) (exf_st 5).
+Proof.
+  constructor; [|constructor; [|constructor; [|constructor]]].
+  - apply (sc_by_SF 5 _ _ false 10066330 (-25)); vm_compute; reflexivity.
+  - apply (sc_by_SF 5 _ _ false 14260634 (-23)); vm_compute; reflexivity.
+  - apply (sc_by_SF 5 _ _ false 13421773 (-27)); vm_compute; reflexivity.
+Qed.
+Example exf_assembly_star0 : fsys_sc 5 (fcreate_star0 (exf_nm 0)) (fcreate_star0 (exf_nm 5)).
+Proof. apply (c17_float_assembly_pow2_exact 5 _ _ exf_scaled); vm_compute; reflexivity. Qed.
+Example exf_assembly_models : forall m, fsys_sc 5 (fcreate m (exf_nm 0) exf_pl exf_eps) (fcreate m (exf_nm 5) exf_pl exf_eps).
+Proof. intros m. apply (c17_float_assembly_pow2_exact 5 _ _ exf_scaled); destruct m; vm_compute; reflexivity. Qed.
+Example exf_assembly_penalty : forall m,
+  fsys_sc 5 (fadd_penalty exf_pl exf_tg (exf_st 0) exf_eps (fcreate m (exf_nm 0) exf_pl exf_eps))
+            (fadd_penalty exf_pl exf_tg (exf_st 5) exf_eps (fcreate m (exf_nm 5) exf_pl exf_eps)).
+Proof.
+  intros m. apply (c17_float_assembly_pow2_exact 5 _ _ exf_scaled); [exact exf_strengths_scaled| |]; destruct m; vm_compute; reflexivity.
+Qed.
+(* the rounding is real on this instance: the B2B system has entries that are not dyadic multiples of the inputs, and
+   its bit pattern at weights * 32 is ldexp(., 5) of the one at weights * 1 *)
+Example exf_bits : fsys_ldexp 5 (fcreate B2B (exf_nm 0) exf_pl exf_eps) (fcreate B2B (exf_nm 5) exf_pl exf_eps).
+Proof. apply c17_float_scaled_system_is_ldexp. apply exf_assembly_models. Qed.
+Example exf_round_pow2 : rnd32 (bpow radix2 7 * 3)%R = (bpow radix2 7 * rnd32 3)%R.
+Proof.
+  apply c17_float_round_pow2.
+  - rewrite Rabs_pos_eq by lra. apply Rle_trans with (bpow radix2 0); [apply bpow_le; lia|simpl; lra].
+  - rewrite Rabs_pos_eq by (simpl; lra). apply Rle_trans with (bpow radix2 0); [apply bpow_le; lia|simpl; lra].
+Qed.
+
+(* the side condition discharged from ranges on a non-trivial instance: 2 * 0.5 = 1, 2 / 0.5 = 4, 2 + 0.5 = 2.5 *)
+Example exf_side_condition :
+  ok_mul ftwo fhalf (fmul ftwo fhalf) = true /\ ok_div ftwo fhalf (fdiv ftwo fhalf) = true /\ ok_add (fadd ftwo fhalf) = true.
+Proof.
+  assert (E2 : B2R ftwo = 2%R) by (unfold ftwo, B2R, F2R; simpl; lra).
+  assert (Eh : B2R fhalf = (/ 2)%R) by (unfold fhalf, B2R, F2R; simpl; lra).
+  assert (L : (bpow radix2 (-125) <= 1)%R) by (apply Rle_trans with (bpow radix2 0); [apply bpow_le; lia|simpl; lra]).
+  assert (U : (4 <= bpow radix2 127)%R) by (apply Rle_trans with (bpow radix2 2); [simpl; lra|apply bpow_le; lia]).
+  destruct (c17_float_side_condition_by_range ftwo fhalf fhalf eq_refl eq_refl eq_refl) as (M & D & A).
+  split; [|split].
+  - apply M. right. rewrite E2, Eh. replace (2 * / 2)%R with 1%R by lra. rewrite Rabs_R1. lra.
+  - apply D; [rewrite Eh; lra|]. right. rewrite E2, Eh. replace (2 / / 2)%R with 4%R by (unfold Rdiv; rewrite Rinv_inv; lra).
+    rewrite Rabs_pos_eq by lra. lra.
+  - apply A. right. rewrite E2, Eh. rewrite Rabs_pos_eq by lra. lra.
+Qed.
+
 Print Assumptions c17_assembly_homogeneous.
 Print Assumptions c17_add_net_stores_weight.
 Print Assumptions c17_solution_set_invariant.
@@ -230,3 +383,10 @@ Print Assumptions c17_finalize_keeps_equations.
 Print Assumptions c17_homogeneity_refuted_for_int_container.
 Print Assumptions c17_solution_set_refuted_for_int_container.
 Print Assumptions c17_least_squares_refuted_for_int_container.
+Print Assumptions c17_float_round_pow2.
+Print Assumptions c17_float_ops_pow2_exact.
+Print Assumptions c17_float_assembly_pow2_exact.
+Print Assumptions c17_float_scaled_system_is_ldexp.
+Print Assumptions c17_float_finalize_regularisation_not_scaled.
+Print Assumptions c17_float_pow2_exact_refuted_under_underflow.
+Print Assumptions c17_float_side_condition_by_range.
